@@ -8,7 +8,7 @@
 #include <stdio.h>
 #include <string.h>
 
-bool small;
+#include "globals.h"
 void *xmalloc(size_t n) { void *p = malloc(n ? n : 1); if (!p) abort(); return p; }
 
 static uint64_t rng;
@@ -37,7 +37,7 @@ static int occurs(const uint32_t *w, long nbits, long s)
 
 static unsigned long long n_calls, n_hits, n_more, n_bad, n_chained, n_skipcalls, n_truncated_hits;
 
-static void fail(const char *why, const uint32_t *w, long nwords, long start, unsigned skip, long got)
+static void mismatch(const char *why, const uint32_t *w, long nwords, long start, unsigned skip, long got)
 {
   long i;
   n_bad++;
@@ -124,17 +124,17 @@ int main(int argc, char **argv)
         if (rv == OK) {
           long s = end - 80;
           n_hits++;
-          if (!occurs(w, nbits, s)) fail("reported-position-is-not-the-pattern", w, nwords, start, skip, end);
-          else if (s < start) fail("hit-before-start", w, nwords, start, skip, end);
-          else if (first >= 0 && s > first) fail("missed-earlier-occurrence", w, nwords, start, skip, end);
-          else if (end > nbits) fail("position-beyond-input", w, nwords, start, skip, end);
+          if (!occurs(w, nbits, s)) mismatch("reported-position-is-not-the-pattern", w, nwords, start, skip, end);
+          else if (s < start) mismatch("hit-before-start", w, nwords, start, skip, end);
+          else if (first >= 0 && s > first) mismatch("missed-earlier-occurrence", w, nwords, start, skip, end);
+          else if (end > nbits) mismatch("position-beyond-input", w, nwords, start, skip, end);
         } else if (rv == MORE) {
           n_more++;
-          if (first >= 0 && first + 80 <= nbits) fail("missed-occurrence-with-32-following-bits", w, nwords, start, skip, end);
+          if (first >= 0 && first + 80 <= nbits) mismatch("missed-occurrence-with-32-following-bits", w, nwords, start, skip, end);
           if (first >= 0 && first + 80 > nbits) n_truncated_hits++;
-          if (end != nbits && !(first >= 0)) fail("MORE-without-consuming-input", w, nwords, start, skip, end);
+          if (end != nbits && !(first >= 0)) mismatch("MORE-without-consuming-input", w, nwords, start, skip, end);
         } else
-          fail("bad-return-value", w, nwords, start, skip, rv);
+          mismatch("bad-return-value", w, nwords, start, skip, rv);
         /* chained calls with skip 0 enumerate all occurrences outside the consumed 80 bits */
         if (rv == OK && rnd() % 2) {
           long pos = end, expect = -1;
@@ -143,8 +143,8 @@ int main(int argc, char **argv)
             if (occurs(w, nbits, i)) { expect = i; break; }
           do_scan(w, nwords, pos, 0, &rv2, &end2);
           n_calls++; n_chained++;
-          if (rv2 == OK && (expect < 0 || end2 - 80 != expect)) fail("chained-hit-wrong", w, nwords, pos, 0, end2);
-          if (rv2 == MORE && expect >= 0 && expect + 80 <= nbits) fail("chained-miss", w, nwords, pos, 0, end2);
+          if (rv2 == OK && (expect < 0 || end2 - 80 != expect)) mismatch("chained-hit-wrong", w, nwords, pos, 0, end2);
+          if (rv2 == MORE && expect >= 0 && expect + 80 <= nbits) mismatch("chained-miss", w, nwords, pos, 0, end2);
         }
       }
     }
